@@ -181,6 +181,14 @@ def statements():
         N("vardecl", ("named", ["Box"], [INT]), "bx", N("new", ("named", ["Box"], []), [A]), False, False), N("vardecl", ("arr", ("named", ["K"], None), 2), "ks", None, False, False),
         N("vardecl", ("named", ["p", "K"], None), "k", None, False, False),
         N("block", [N("block", [N("echo", A)]), N("echo", B)]),
+    ]
+    # forInit = variableDeclaration: a declaration of every primitive type, final and not, an array, a class type
+    for ty, li in ((INT, lit("0")), (("prim", "long"), lit("5L", "long")), (FLT, lit("1.5f", "float")), (("prim", "boolean"), lit("true", "boolean")), (("prim", "bit"), lit("1b", "bit")),
+                   (("prim", "char"), lit("'c'", "char")), (("prim", "string"), lit('"s"', "string"))):
+        for fin in (False, True):
+            out.append(N("for", N("vardecl", ty, "i", li, fin, False), N("bin", "<", A, B), N("post", "++", var("k")), blk(N("echo", var("i")))))
+    out += [
+        N("for", N("vardecl", ("prim", "qubit"), "q", None, False, False), N("bin", "<", A, B), N("post", "++", var("k")), blk()),
         N("if", A, N("block", [N("if", B, N("block", []), N("block", [N("echo", C)]))]), N("block", [])),
         N("while", A, N("block", [N("while", B, N("block", [N("return", None)]))])),
         N("ternary", A, N("ternary", B, N("echo", A), N("echo", B)), N("echo", C)),
